@@ -392,7 +392,7 @@ func init() {
 		Rule:     "fault = damage to the grammar file handed to yaccgo while its lexer task and parser task run over their channel: EVERY truncation point of every base text (the repository's examples + rendered grammars of all families), then seeded byte substitutions/insertions/deletions from the grammar's own alphabet and duplicated/dropped/swapped 16-byte sectors. Each damaged text runs through generate (go, go -o -u, typescript) or debug under a tick budget of 200 x ticks(base) + 1e6. distinct_nontrivial = distinct damaged texts that were run to an outcome.",
 		NumCases: func(ctx *Ctx) int { c13Bases(ctx); return c13cum[len(c13cum)-1] + c13Edits(ctx) },
 		Gen:      genC13, Exec: execC13,
-		FaultKeys: []string{"fault_truncate", "fault_flip", "fault_insert", "fault_insert-rune", "fault_delete", "fault_dupsector", "fault_dropsector", "fault_swapsector", "fault_flip+truncate"},
+		FaultKeys: []string{"fault_truncate", "fault_flip", "fault_insert", "fault_insert-rune", "fault_insert-rune-at-mark", "fault_delete", "fault_dupsector", "fault_dropsector", "fault_swapsector", "fault_flip+truncate"},
 		Probes:    []string{"outcome_ok", "outcome_error", "outcome_panic"},
 		Assume:    []string{"every loop of yaccgo carries a tick (the instrumenter adds one to every for/range body, function entry and goto label)", "a run that needs more than 200x the ticks of its well-formed base is not going to finish"},
 	})
